@@ -64,6 +64,9 @@ func variants(kind string, tid int) []inst {
 			{op: Op{Kind: "OpenFile", P: "d1/f1", A: oWRONLY | oTRUNC, B: 0o600}},
 			{op: Op{Kind: "OpenFile", P: "d1/f1", A: oRDWR | oAPPEND, B: 0o600}},
 			{op: Op{Kind: "OpenFile", P: "d3/f1", A: oRDWR | oCREATE | oEXCL, B: 0o600}},
+			// creating with a read-only access mode creates all the same
+			{op: Op{Kind: "OpenFile", P: "d1/f2", A: oRDONLY | oCREATE, B: 0o600}},
+			{op: Op{Kind: "OpenFile", P: "d3/f1", A: oRDONLY | oCREATE, B: 0o600}},
 		}
 	case "Mkdir", "MkdirAll":
 		return P(kind, "d1/e2", "d1", "d3/e1", "d1/e1")
@@ -77,6 +80,9 @@ func variants(kind string, tid int) []inst {
 			{op: Op{Kind: "Rename", P: "d1/f1", Q: "d2/f1"}},
 			{op: Op{Kind: "Rename", P: "f1", Q: "d1/f1"}},
 			{op: Op{Kind: "Rename", P: "d1/e1/f1", Q: "d1/f1"}},
+			// into a directory that does not exist yet: Rename makes it and registers it with an
+			// ancestor it does not hold
+			{op: Op{Kind: "Rename", P: "f1", Q: "d1/" + x + "/f1"}},
 		}
 	case "RenameDir":
 		return []inst{
